@@ -697,6 +697,9 @@ func (ex *Exec) applyContract(st *State, c *Contract, fn *types.Func, recv *Val,
 				continue
 			}
 			n++
+			if !ex.clauseActive(cl) {
+				continue
+			}
 			ex.curClause = c.Func + ": requires " + cl.Text
 			g := ex.eval(st, cl.Expr, sc)
 			name := cl.Name
@@ -784,12 +787,34 @@ func (ex *Exec) applyContract(st *State, c *Contract, fn *types.Func, recv *Val,
 			}
 		}
 		for i, r := range results {
-			if r.Sh == nil || !r.Sh.IsLeaf() || len(sorts) == 0 {
+			if r.Sh == nil || len(sorts) == 0 {
 				continue
 			}
-			fname := "fn_" + smtName(c.Func) + fmt.Sprintf("_r%d", i)
-			ex.eng.smt.declFun(fname, "(declare-fun "+fname+" ("+strings.Join(sorts, " ")+") "+r.Sh.Leaf+")")
-			results[i] = &Val{Sh: r.Sh, T: r.T, S: "(" + fname + " " + strings.Join(terms, " ") + ")"}
+			var build func(sh *Shape, path string) *Val
+			build = func(sh *Shape, path string) *Val {
+				if sh.IsLeaf() {
+					fname := "fn_" + smtName(c.Func) + fmt.Sprintf("_r%d", i) + smtName(path)
+					ex.eng.smt.declFun(fname, "(declare-fun "+fname+" ("+strings.Join(sorts, " ")+") "+sh.Leaf+")")
+					return ex.loaded(&Val{Sh: sh, T: sh.T, S: "(" + fname + " " + strings.Join(terms, " ") + ")"})
+				}
+				o := &Val{Sh: sh, T: sh.T}
+				for k, ks := range sh.Kids {
+					o.Kids = append(o.Kids, build(ks, path+"."+sh.Names[k]))
+				}
+				switch sh.Kind {
+				case "slice":
+					st.assume("(<= 0 " + o.Kids[0].S + ")")
+				case "map":
+					st.assume("(<= 0 " + o.Kids[1].S + ")")
+				}
+				return o
+			}
+			if r.Sh.Kind == "any" || (r.Sh.Kind != "slice" && !r.Sh.IsLeaf() && r.Sh.Kind != "struct") {
+				continue
+			}
+			v := build(r.Sh, "")
+			v.T = r.T
+			results[i] = v
 		}
 	}
 	bindResults(sc, fn, results)
@@ -816,6 +841,9 @@ func (ex *Exec) applyContract(st *State, c *Contract, fn *types.Func, recv *Val,
 	for _, cl := range c.Clauses {
 		if (cl.Kind != "ensures" && cl.Kind != "ghostupdate") || cl.Expr == nil || cl.Finding != "" {
 			continue
+		}
+		if !ex.clauseActive(cl) {
+			continue // a clause restricted to other properties: neither demanded nor used in this check
 		}
 		ex.curClause = c.Func + ": ensures " + cl.Text
 		g := ex.eval(st, cl.Expr, sc)
@@ -1086,6 +1114,9 @@ func (ex *Exec) specForm(st *State, name string, call *ast.CallExpr, sc *SpecCtx
 		}
 		n := *sc
 		n.inOld = true
+		if n.cur == nil {
+			n.cur = st
+		}
 		return one(ex.eval(sc.old, call.Args[0], &n))
 	case "implies":
 		a := ex.eval(st, call.Args[0], sc)
